@@ -362,6 +362,40 @@ def C_must_pass(b, start, targets):
     return all(C.must_pass(b, s, set(C.exits(b, False)), targets) for s in succ)
 
 
+UNSIGNED_BITS = {'u8': 8, 'u16': 16, 'u32': 32, 'u64': 64, 'usize': 64, 'u128': 128}
+STAT_WIDTHS = {}
+
+
+def peel_widening(v):
+    """`load(..) as u64` -> (load(..), 'u32'): an integer cast between unsigned types standing between an atomic counter and the
+    u64 figure it is reported as (the counter's own width is judged by the width rule, not by the shape rule); anything else is
+    returned unchanged with width 'u64'"""
+    w_ = 'u64'
+    while True:
+        if v[0] == 'cast' and v[1] == 'IntToInt' and v[2] in UNSIGNED_BITS and v[3] in UNSIGNED_BITS:
+            if UNSIGNED_BITS[v[2]] < UNSIGNED_BITS[w_]:
+                w_ = v[2]
+            v = v[4]
+        elif v[0] == 'call' and isinstance(v[1], str) and len(v[2]) == 1 and \
+                v[1] in ('<u64 as core::convert::From>::from', '<u128 as core::convert::From>::from'):
+            v = v[2][0]         # u64::from(narrower): the width is read off the counter's declared type (atomic_width)
+        else:
+            return v, w_
+
+
+def atomic_width(cad, adt, field, seen='u64'):
+    """declared width of an atomic counter field (`AtomicU16`, `Arc<AtomicU32>` ..), the narrower of it and what the casts showed"""
+    import re as _re
+    for f in adt_fields(cad, adt) or []:
+        if f['name'] == field:
+            m_ = _re.search(r'Atomic<(u\w+)>', f['ty'])
+            if m_ and m_.group(1) in UNSIGNED_BITS and UNSIGNED_BITS[m_.group(1)] < UNSIGNED_BITS[seen]:
+                return m_.group(1)
+            if m_ and m_.group(1) == 'usize' and seen == 'u64':
+                return 'usize'
+    return seen
+
+
 def stat_roles(cad):
     """public SinkStats field -> the private SocketStats counter it is read from (from `From<&SocketStats> for SinkStats`);
     None unless the four public figures come from four distinct counters"""
@@ -380,9 +414,11 @@ def stat_roles(cad):
             return None
         out = {}
         for n_, v in list(rts)[0][3]:
+            v, w_ = peel_widening(v)
             if not term_callee_is(v, 'core::sync::atomic::Atomic::load'):
                 return None
             out[n_] = leaf_field_name(v[2][0])
+            STAT_WIDTHS[n_] = atomic_width(cad, SS, out[n_], w_)
         if len(out) != 4 or len(set(out.values())) != 4 or None in out.values():
             return None
         if res is not None and res != out:
@@ -481,7 +517,12 @@ def rule_classification(ctx, rep, rid='R2'):
         """the usize behind `x as u64` / `u64::try_from(x).unwrap_or(..)` (usize -> u64 cannot fail: the fallback is dead)"""
         from .values import checked_conv
         if a[0] == 'cast':
-            return a[4]
+            # `x as u64`, `(x as u64) as usize`: integer casts that keep every value of a byte count; a cast to a
+            # narrower type (`written as u16`) is not peeled - the amount is then not the byte count any more
+            while a[0] == 'cast' and a[1] == 'IntToInt' and a[2] in UNSIGNED_BITS and a[3] in UNSIGNED_BITS and \
+                    UNSIGNED_BITS[a[3]] >= UNSIGNED_BITS[a[2]]:
+                a = a[4]
+            return a
         alts = flatten_phi(a)
         conv = [checked_conv(y) for y in alts]
         srcs = set(c[1] for c in conv if c is not None and c[0] == 'u64')
@@ -535,6 +576,14 @@ def rule_shared_counters(ctx, rep, rid='R3'):
         if len(rts) == 1 and list(rts)[0][0] == 'adt':
             ok = stat_roles(cad) is not None
         rep.ob(rid, 'snapshot-maps-field-to-same-field', ok, b.where(), 'the four public figures are loads of four distinct SocketStats counters (which one feeds which is then used by the classification rule)')
+        if ok:
+            import struct
+            host64 = struct.calcsize('P') * 8 >= 64
+            narrow = sorted('%s is kept in a %s' % (n_, w_) for n_, w_ in STAT_WIDTHS.items()
+                            if UNSIGNED_BITS[w_] < 64 or (w_ == 'usize' and not host64))
+            rep.ob(rid, 'counter-as-wide-as-its-figure', not narrow, b.where(),
+                   'every counter is at least as wide as the u64 figure it is reported as (usize counts as 64 bits on the analysed target)'
+                   if not narrow else 'a counter narrower than the u64 it is reported as wraps while the sink is in use: %s' % '; '.join(narrow))
     # SocketStats Clone is derived over Arc fields (clones share)
     cl = [i for i in cad.impls_of('core::clone::Clone') if i.get('self_adt') == SS]
     fields = adt_fields(cad, SS) or []
